@@ -74,7 +74,11 @@ StepNext(e) ==
       \* the legal schedule is the one where the completion was consumed by the same call.
       doneOnReturn == t0.out.k = "waiting" /\ t0.cmd.st = "run" /\ t0.cmd.arg.t = "n" /\ o.out.k # "waiting"
                       /\ pre.cmd.st = "none"
-      t == IF doneOnReturn THEN Big(P, t0, InDone(0, FALSE)) ELSE t0
+      t1 == IF doneOnReturn THEN Big(P, t0, InDone(0, FALSE)) ELSE t0
+      \* a plain line with a line condition: the other reading (a false condition skips the line) is
+      \* accepted as well; the machine continues in whichever state explains the observation
+      tSkip == [Big(P, [pre EXCEPT !.lcmode = "skip"], e.in) EXCEPT !.lcmode = "show"]
+      t == IF P.linecond /\ o.out # t1.out /\ o.out = tSkip.out THEN tSkip ELSE t1
       mism == (IF o.out # t.out THEN <<"out">> ELSE <<>>)
            \o (IF o.ccalls # t.ccalls THEN <<"ccalls">> ELSE <<>>)
            \o (IF o.fcalls # t.fcalls THEN <<"fcalls">> ELSE <<>>)
